@@ -30,6 +30,9 @@ type tbl struct {
 	fieldMaps map[string]*syncMapModel       // ... and those held by value in a field, by owner and field name
 	// sortStrictBad, when set, collects violations of strictness of a sort.Interface's Less (checked before sorting)
 	sortStrictBad *[]string
+	// setup, when set, runs in the run's own interpreter before the subject (registration through the subject's own
+	// methods): the choices it makes are enumerated with those of the run
+	setup func(ip *absint.Interp)
 }
 
 type syncMapModel struct {
@@ -212,6 +215,12 @@ func (t *tbl) Call(ip *absint.Interp, site ssa.CallInstruction, args []absint.Va
 		return t.newErr(cal.Name()), true
 	case strings.HasPrefix(full, "(*sync.WaitGroup).") || strings.HasPrefix(full, "(*sync.Mutex).") || strings.HasPrefix(full, "(*sync.RWMutex)."):
 		return nil, true // synchronisation has no effect on a sequential schedule
+	case full == "reflect.DeepEqual" && len(args) == 2:
+		// one object equals itself; two different objects may or may not have equal contents
+		if a, ok := args[0].(*absint.Tok); ok && args[1] == absint.Value(a) {
+			return absint.Bool(true), true
+		}
+		return absint.Bool(ip.Choose(2, "two different objects have equal contents") == 1), true
 	case full == "fmt.Sprintf" || full == "fmt.Sprint":
 		return &absint.Opaque{Why: "text"}, true
 	case full == "sort.Sort" || full == "sort.Stable":
@@ -244,7 +253,12 @@ func (t *tbl) Call(ip *absint.Interp, site ssa.CallInstruction, args []absint.Va
 	case strings.HasPrefix(full, "(*sync.Map)."):
 		// sync.Map as a sequential map (atomicity of the single operations is the library's; C20 decides their use)
 		m := t.syncMap(args[0])
-		key := func(v absint.Value) string { return absint.Show(v) }
+		key := func(v absint.Value) string {
+			if _, unknown := v.(*absint.Opaque); unknown {
+				panic(&absint.Undecided{Msg: "a sync.Map keyed by a value the model does not know"})
+			}
+			return absint.Show(v)
+		}
 		switch cal.Name() {
 		case "Load":
 			if v, ok := m.v[key(args[1])]; ok {
@@ -410,6 +424,19 @@ func (t *tbl) TypeTest(ip *absint.Interp, v absint.Value, T types.Type) (bool, b
 	if l, isL := v.(*absint.List); isL && l.GoType != nil && !types.IsInterface(T) {
 		return types.Identical(l.GoType, T), true
 	}
+	// an object the interpreted code built itself has the Go type it was built with
+	if tok, isT := v.(*absint.Tok); isT {
+		dyn, _ := tok.Attr["boxed"].(types.Type)
+		if dyn == nil {
+			dyn, _ = tok.Attr["gotype"].(types.Type)
+		}
+		if dyn != nil {
+			if it, isI := T.Underlying().(*types.Interface); isI {
+				return types.Implements(dyn, it), true
+			}
+			return types.Identical(dyn, T), true
+		}
+	}
 	// literals carry their basic type
 	if b, isB := T.Underlying().(*types.Basic); isB {
 		switch v.(type) {
@@ -442,12 +469,26 @@ func (t *tbl) Global(ip *absint.Interp, g *ssa.Global) absint.Value {
 // build() creates a fresh oracle + arguments for each run (heap objects must not be shared between runs).
 func runTable(c *core.Ctx, fn *ssa.Function, build func() (absint.Oracle, []absint.Value, []absint.Value), check func(ip *absint.Interp, out absint.Outcome)) (runs int, undecided string) {
 	var tape []int
+	// a table whose set-up (registering the participants through the subject's own registration methods) leaves the
+	// model is undecided, like one whose run does
+	defer func() {
+		if r := recover(); r != nil {
+			if u, ok := r.(*absint.Undecided); ok {
+				undecided = "setting up the table: " + u.Msg
+				return
+			}
+			panic(r)
+		}
+	}()
 	for {
 		orc, args, bind := build()
 		ip := absint.New(orc)
 		ip.IsLog = core.IsLogCall
 		ip.InScope = c.InScope
 		ip.Tape = tape
+		if t, ok := orc.(*tbl); ok && t.setup != nil {
+			t.setup(ip)
+		}
 		out := ip.Run(fn, args, bind)
 		runs++
 		if out.Undecided != nil {
